@@ -57,6 +57,9 @@ def build_case(desc):
     classes = S.build_models(spec0)
     psig0 = S.project_sig(classes, apps_order=list(spec0))
     rows = seqcase.gen_rows(rng, spec0)
+    gen.row_counts = {
+        (a, m): len(rows.get(S.model_table(spec0, a, m), []))
+        for a, mods in spec0.items() for m in mods}
     length = rng.choice([1, 2, 2, 3, 4, 5, 6])
     ops = ['add_field'] * 5 + ['delete_field'] * 3 + ['rename_field'] * 4 + \
         ['change_field'] * 6 + ['change_meta'] * 2 + ['rename_model'] * 2 + \
@@ -124,6 +127,8 @@ def run_case(desc):
     for it in items:
         it['batched'] = False
     stats['rebuilds'] = sum(len(t.rebuilds()) for t in traces)
+    stats['relation_adds_with_initial'] = sum(
+        1 for e in edits if e.get('rel_initial'))
     stats['op_kinds'] = {}
     for k in seqcase.op_kinds(edits):
         stats['op_kinds'][k] = stats['op_kinds'].get(k, 0) + 1
